@@ -19,7 +19,7 @@ PLANS = {
                  'non-trivial = >=2 Nerode classes and at least one mergeable pair of states.'),
         'schedule_measure': 'distinct (abstract DFA, iteration order of its Q/Sigma/F sets in the executing process) pairs',
         'assumptions': COMMON_ASSUMPTIONS,
-        'expected_probes': ['has_unreachable', 'F_empty', 'F_full', 'one_state', 'sigma_empty', 'logging_on', 'nontrivial', 'inplace_edit_between_calls', 'earlier_calls_on_a_twin'],
+        'expected_probes': ['has_unreachable', 'F_empty', 'F_full', 'one_state', 'sigma_empty', 'logging_on', 'nontrivial', 'inplace_edit_between_calls', 'earlier_calls_on_a_twin', 'at_least_12_classes'],
         'technique': 'deterministic simulation: seeded search over set-iteration schedules (PYTHONHASHSEED x renaming x insertion order) and the logging knob; reference-model oracle; minimised replay files',
         'level_text': 'seeded sampling of DFAs x schedules; every result of the three minimisers is checked against an independent reference (validity, exact language equality, Moore refinement leaves every state alone, Nerode class-count bounds, argument snapshot); evidence, not proof',
         'design_ref': 'DESIGN.md 5.2',
